@@ -4,6 +4,7 @@ Random device classes (DeviceVars of random formats, class chains, several insta
 group by pickling, as `ProcessSyncGroup.start` does) and vice versa for a few configurations, in-process for
 the rest; positions, array size, array bytes and values are compared with the Lean model `Ebv.Collect`
 (`simDiscover` + `collect` + accessors + `devGet`)."""
+import json
 import struct
 import sys
 
@@ -13,10 +14,10 @@ ID = "C29"
 LEAN_MODULES = ["Ebv.Props.C29"]
 MODEL_MODULES = ["Ebv.Model.Collect"]
 DRIVER = "Drivers/C29.lean"
-THEOREMS = ["Ebv.C29.devicevars_collected", "Ebv.C29.devices_disjoint", "Ebv.C29.other_var_unchanged",
-            "Ebv.C29.shared_roundtrip", "Ebv.C29.devices_disjoint_full_refuted",
+THEOREMS = ["Ebv.C29.devicevars_collected", "Ebv.C29.dedupGo_mem", "Ebv.C29.devices_disjoint_full_proved", "Ebv.C29.devices_inside",
+            "Ebv.C29.other_var_unchanged", "Ebv.C29.shared_roundtrip", "Ebv.C29.devices_disjoint_old_refuted",
             "Ebv.C29.devGet_none", "Ebv.C29.devGet_plain", "Ebv.C29.devGet_plain_default", "Ebv.C29.devGet_loaded",
-            "Ebv.C08.collect_disjoint", "Ebv.C08.py_roundtrip"]
+            "Ebv.C08.collect_disjoint_full_proved", "Ebv.C08.py_roundtrip"]
 TRUSTED = ["hand-written model Ebv.Collect (simDiscover, collect, accessors, devGet), tied by exact correspondence on generated device sets",
            "which map DeviceVar and ProcessSyncGroup.properties are bound to is read off the real classes on every run and is the "
            "hypothesis of devicevars_collected (checked by the oracle)",
@@ -85,7 +86,7 @@ def fmt_of(case, key):
     return c08.resolved(case, inst[key[0]])[key[1]][1]
 
 
-def known_class(case):
+def shape(case):
     seen = set()
     for c, i in case["subs"]:
         for k in c08.mro_names(case, c):
@@ -357,7 +358,7 @@ def retag(case, tag):
 def oracle(ctx, case, reads1, reads2, b, live_ranges):
     """the property text: every DeviceVar written on one side is read unchanged on the other; variables of
     different devices never share storage"""
-    cls = known_class(case)
+    cls = None
     if case["group"] != "process":
         exp = {}
         for i, v, vals in first_sets(case):
@@ -410,14 +411,19 @@ def check_batch(ctx, cases, spawn, pending):
     results = run_batch(cases, spawn)
     for case, (l1, l2, reads1, reads2, b, lr) in zip(cases, results):
         ctx.case(case, nontrivial=len({i for i, v in dev_keys(case)}) >= 2,
-                 kind=case["group"] + ("-spawn" if spawn else "") + (":" + known_class(case) if known_class(case) else ""))
+                 kind=case["group"] + ("-spawn" if spawn else "") + (":" + shape(case) if shape(case) else ""))
         oracle(ctx, case, reads1, reads2, b, lr[0])
         pending.append((case, l1, l2, lr[2]))
+
+
+# the witness of the overriding-DeviceVar defect repaired by commit 6422374 (device 1's a covered device 2's variable)
+WITNESS = {"kind": "group", "group": "process", "classes": [["D0_0", {"root": "D", "bases": [], "maps": [], "vars": [["v0", "m", "B"], ["v1", "m", "B"]]}], ["D0_1", {"root": "D", "bases": ["D0_0"], "maps": [], "vars": [["v0", "m", "Q"]]}], ["D1_0", {"root": "D", "bases": [], "maps": [], "vars": [["v2", "m", "B"]]}]], "main": null, "subs": [["D0_1", 1], ["D1_0", 2]], "sets": [[2, "v2", [7]], [1, "v1", [3]], [1, "v0", [1]]], "back": [[1, "v0", [2]], [1, "v1", [4]], [2, "v2", [9]]], "wkc": [5, 6]}
 
 
 def run(ctx):
     assert sys.byteorder == "little"
     pending = []
+    check_batch(ctx, [json.loads(json.dumps(WITNESS))], False, pending)
     nspawn, per = ctx.n(3, 12), 4
     for j in range(nspawn):
         check_batch(ctx, [retag(gen(ctx.rng), f"{j}x{k}") for k in range(per)], True, pending)
@@ -444,12 +450,12 @@ def replay(ctx, case):
 
 
 LEVEL_TEXT = ("Lean 4 proof over the shared model Ebv.Collect: for every group class chain whose first `properties` map is the map DeviceVars are "
-              "bound to and every list of devices with arbitrary class chains, every DeviceVar of every device has a position in the group's shared "
-              "array (devicevars_collected); if no (device, name) is collected twice, variables of different devices occupy disjoint ranges inside the "
-              "array (devices_disjoint, from C08.collect_disjoint), a written value is read back for every format and no other variable changes "
-              "(shared_roundtrip, other_var_unchanged, from C08.py_roundtrip); the unrestricted disjointness is refuted on an overriding DeviceVar "
-              "(devices_disjoint_full_refuted, known finding shared with C08). Tie: exact correspondence with the real ProcessSyncGroup, values crossing "
-              "a really spawned child process in both directions for a few configurations per run.")
+              "bound to and every list of devices with arbitrary class chains (incl. redeclared DeviceVars and devices listed twice), every DeviceVar "
+              "of every device has a position in the group's shared array (devicevars_collected), variables of different devices occupy disjoint "
+              "ranges inside the array (devices_disjoint_full_proved, devices_inside, from C08.collect_disjoint_full_proved), a written value is read "
+              "back for every format and no other variable changes (shared_roundtrip, other_var_unchanged, from C08.py_roundtrip); the collection "
+              "before commit 6422374 is refuted on its witness (devices_disjoint_old_refuted). Tie: exact correspondence with the real "
+              "ProcessSyncGroup, values crossing a really spawned child process in both directions for a few configurations per run.")
 LEVEL_NOTE = ("trusted: Lean kernel + standard axioms; hand model validated by differential runs; multiprocessing shared memory and pickling; "
               "the binding of DeviceVar/ProcessSyncGroup.properties is observed on the real classes each run")
 TECHNIQUE = "Lean 4 proof (corollaries of the C08 layout and codec theorems + discovery lemma) + differential correspondence incl. a spawned process"
